@@ -30,6 +30,8 @@ structure ItemTy where
   /-- ids of the interfaces this type depends on through `use`, dependencies first
       (the order `TypeEncoder::import_deps` visits them in) -/
   deps  : List Str := []
+  /-- for an instance: the export names of its interface (what the importer needs; C03) -/
+  exports : List Str := []
 deriving DecidableEq, Repr, Inhabited
 
 /-- one import of a package's world, in world order -/
